@@ -445,10 +445,15 @@ int EGLPNUM_TYPENAME_ILLread_lp_state_possible_bound_value (
 	EGLPNUM_TYPE sign;
 	int len = 0;
 	char *p = NULL;
+	char *after_sign = NULL;
 	int rval = 0;
 
 	EGLPNUM_TYPENAME_EGlpNumInitVar (sign);
-	(void) EGLPNUM_TYPENAME_ILLread_lp_state_sign (state, &sign);
+	if (EGLPNUM_TYPENAME_ILLread_lp_state_sign (state, &sign) == 0)
+	{
+		/* a sign was taken: remember where, to give it back if no value follows */
+		after_sign = state->p;
+	}
 
 	if (!strncasecmp (state->p, "INFINITY", (size_t) 8))
 	{
@@ -493,6 +498,11 @@ int EGLPNUM_TYPENAME_ILLread_lp_state_possible_bound_value (
 		goto CLEANUP;
 	}
 CLEANUP:
+	if (rval == 0 && after_sign != NULL && state->p == after_sign)
+	{
+		/* no value: the sign that was skipped is not ours either ("- x <= 5") */
+		state->p--;
+	}
 	EGLPNUM_TYPENAME_EGlpNumClearVar (sign);
 	return rval;									/* no coef found */
 }
